@@ -23,7 +23,7 @@ import copy
 
 from .inline import PINNED_PRIVATE, _contains
 
-PURE_CALLS = {"isinstance", "_abort_at_level"}
+PURE_CALLS = {"isinstance", "_abort_at_level", "hasattr", "callable"}
 MAX_DUP = 10  # statements
 
 
@@ -167,7 +167,7 @@ def _cond_expr(e, scope, before=None):
 def _is_boolish(e):
     if isinstance(e, ast.Compare):
         return True
-    if isinstance(e, ast.Call) and isinstance(e.func, ast.Name) and e.func.id == "isinstance":
+    if isinstance(e, ast.Call) and isinstance(e.func, ast.Name) and e.func.id in ("isinstance", "hasattr", "callable"):
         return True
     if isinstance(e, ast.UnaryOp) and isinstance(e.op, ast.Not):
         return True
@@ -883,11 +883,18 @@ def inline_generators(tree, allh, used):
         if len(hbody) != 1 or not isinstance(hbody[0], ast.For) or hbody[0].orelse:
             return None
         loop = hbody[0]
-        ifs = []
-        inner = loop.body
-        while len(inner) == 1 and isinstance(inner[0], ast.If) and not inner[0].orelse:
-            ifs.append(inner[0].test)
-            inner = inner[0].body
+        comps = []
+        while True:
+            ifs = []
+            inner = loop.body
+            while len(inner) == 1 and isinstance(inner[0], ast.If) and not inner[0].orelse:
+                ifs.append(inner[0].test)
+                inner = inner[0].body
+            comps.append(ast.comprehension(target=loop.target, iter=loop.iter, ifs=ifs, is_async=0))
+            if len(inner) == 1 and isinstance(inner[0], ast.For) and not inner[0].orelse:
+                loop = inner[0]
+                continue
+            break
         if len(inner) != 1 or not (isinstance(inner[0], ast.Expr) and isinstance(inner[0].value, ast.Yield)):
             return None
         params = [a.arg for a in fn.args.posonlyargs + fn.args.args]
@@ -898,8 +905,7 @@ def inline_generators(tree, allh, used):
             return None
         for p, a in zip(params, args):
             mapping[p] = a
-        ge = ast.GeneratorExp(elt=inner[0].value.value,
-                              generators=[ast.comprehension(target=loop.target, iter=loop.iter, ifs=ifs, is_async=0)])
+        ge = ast.GeneratorExp(elt=inner[0].value.value, generators=comps)
         return _Rename(mapping, {}).visit(copy.deepcopy(ge))
 
     def body_ok(stmts):
@@ -1359,11 +1365,278 @@ def resugar_or(tree):
     return n_done
 
 
+def desugar_chain_from_iterable(fn):
+    """`chain.from_iterable(E for x in S)` -> `(item for x in S for item in E)` (one generator, same laziness and order)"""
+    n_done = 0
+
+    class T(ast.NodeTransformer):
+        def visit_Call(self, node):
+            nonlocal n_done
+            self.generic_visit(node)
+            f = node.func
+            if isinstance(f, ast.Attribute) and f.attr == "from_iterable" and len(node.args) == 1 and not node.keywords \
+                    and (norm_name(f.value) in ("chain", "itertools.chain")) and isinstance(node.args[0], (ast.GeneratorExp, ast.ListComp)):
+                ge = node.args[0]
+                n_done += 1
+                item = ast.Name(id="item__chain%d" % n_done, ctx=ast.Load())
+                new = ast.GeneratorExp(elt=item, generators=list(ge.generators) + [
+                    ast.comprehension(target=ast.Name(id=item.id, ctx=ast.Store()), iter=ge.elt, ifs=[], is_async=0)])
+                return ast.copy_location(new, node)
+            return node
+    T().visit(fn)
+    if n_done:
+        ast.fix_missing_locations(fn)
+    return n_done
+
+
+def norm_name(e):
+    if isinstance(e, ast.Name):
+        return e.id
+    if isinstance(e, ast.Attribute):
+        return "%s.%s" % (norm_name(e.value), e.attr)
+    return "?"
+
+
+def desugar_attrgetter(tree):
+    """module-level `g = attrgetter("name")` (bound once) and calls `g(e)`  ->  `e.name`; also `attrgetter("name")(e)`"""
+    getters = {}
+    for st in tree.body:
+        if isinstance(st, ast.Assign) and len(st.targets) == 1 and isinstance(st.targets[0], ast.Name) and isinstance(st.value, ast.Call) \
+                and norm_name(st.value.func) in ("attrgetter", "operator.attrgetter") and len(st.value.args) == 1 and not st.value.keywords \
+                and isinstance(st.value.args[0], ast.Constant) and isinstance(st.value.args[0].value, str) \
+                and st.value.args[0].value.isidentifier():
+            getters[st.targets[0].id] = st.value.args[0].value
+    for name in list(getters):
+        stores = [n for n in ast.walk(tree) if isinstance(n, ast.Name) and n.id == name and isinstance(n.ctx, (ast.Store, ast.Del))]
+        if len(stores) != 1:
+            del getters[name]
+    n_done = 0
+
+    class T(ast.NodeTransformer):
+        def visit_Call(self, node):
+            nonlocal n_done
+            self.generic_visit(node)
+            f = node.func
+            attr = None
+            if isinstance(f, ast.Name) and f.id in getters:
+                attr = getters[f.id]
+            elif isinstance(f, ast.Call) and norm_name(f.func) in ("attrgetter", "operator.attrgetter") and len(f.args) == 1 \
+                    and isinstance(f.args[0], ast.Constant) and isinstance(f.args[0].value, str) and f.args[0].value.isidentifier():
+                attr = f.args[0].value
+            if attr is not None and len(node.args) == 1 and not node.keywords and not isinstance(node.args[0], ast.Starred):
+                n_done += 1
+                return ast.copy_location(ast.Attribute(value=node.args[0], attr=attr, ctx=ast.Load()), node)
+            return node
+    T().visit(tree)
+    if n_done:
+        ast.fix_missing_locations(tree)
+    return n_done
+
+
+def desugar_next_iter(fn):
+    """`next(iter(x), d)` (x a plain name)  ->  `x[0] if x else d` (first element of a sequence or the default)"""
+    n_done = 0
+
+    class T(ast.NodeTransformer):
+        def visit_Call(self, node):
+            nonlocal n_done
+            self.generic_visit(node)
+            if isinstance(node.func, ast.Name) and node.func.id == "next" and len(node.args) == 2 and not node.keywords \
+                    and isinstance(node.args[0], ast.Call) and isinstance(node.args[0].func, ast.Name) and node.args[0].func.id == "iter" \
+                    and len(node.args[0].args) == 1 and isinstance(node.args[0].args[0], ast.Name):
+                x = node.args[0].args[0]
+                n_done += 1
+                new = ast.IfExp(test=ast.Name(id=x.id, ctx=ast.Load()),
+                                body=ast.Subscript(value=ast.Name(id=x.id, ctx=ast.Load()), slice=ast.Constant(value=0), ctx=ast.Load()),
+                                orelse=node.args[1])
+                return ast.copy_location(new, node)
+            return node
+    T().visit(fn)
+    if n_done:
+        ast.fix_missing_locations(fn)
+    return n_done
+
+
+def desugar_yield_from_genexp(fn):
+    """`yield from (e for x in s if c)`  ->  `for x in s: if c: yield e` (statement position)"""
+    n_done = 0
+
+    def rec(stmts):
+        nonlocal n_done
+        out = []
+        for st in stmts:
+            for field, blk in list(_blocks(st)):
+                if field != "handler":
+                    setattr(st, field, rec(blk))
+            if isinstance(st, ast.Try):
+                for h in st.handlers:
+                    h.body = rec(h.body)
+            if isinstance(st, ast.Expr) and isinstance(st.value, ast.YieldFrom) and isinstance(st.value.value, ast.GeneratorExp) \
+                    and len(st.value.value.generators) == 1 and not st.value.value.generators[0].is_async:
+                ge = st.value.value
+                g = ge.generators[0]
+                body = [ast.Expr(value=ast.Yield(value=ge.elt))]
+                for c in reversed(g.ifs):
+                    body = [ast.If(test=c, body=body, orelse=[])]
+                new = ast.For(target=g.target, iter=g.iter, body=body, orelse=[], type_comment=None)
+                ast.copy_location(new, st)
+                for x in ast.walk(new):
+                    if not hasattr(x, "lineno") and isinstance(x, (ast.stmt, ast.expr)):
+                        ast.copy_location(x, st)
+                ast.fix_missing_locations(new)
+                # the target is a Store in the loop header
+                for x in ast.walk(new.target):
+                    if isinstance(x, ast.Name):
+                        x.ctx = ast.Store()
+                out.append(new)
+                n_done += 1
+                continue
+            out.append(st)
+        return out
+    fn.body = rec(fn.body)
+    return n_done
+
+
+def drop_pass_branch(fn):
+    """`if c: pass else: B`  ->  `if not c: B`"""
+    n_done = 0
+    for n in ast.walk(fn):
+        if isinstance(n, ast.If) and n.orelse and len(n.body) == 1 and isinstance(n.body[0], ast.Pass):
+            n.test = ast.copy_location(ast.UnaryOp(op=ast.Not(), operand=n.test), n.test)
+            n.body, n.orelse = n.orelse, []
+            n_done += 1
+    return n_done
+
+
+def _first_evaluated(e):
+    """the first leaf expression evaluated when ``e`` is evaluated (None if unsure)"""
+    while True:
+        if isinstance(e, (ast.Name, ast.Constant)):
+            return e
+        if isinstance(e, ast.Attribute):
+            e = e.value
+        elif isinstance(e, ast.Call):
+            e = e.func
+            # a call evaluates its callee first; a bare builtin name callee is a leaf that is not a local temporary
+            if isinstance(e, ast.Name):
+                return e
+        elif isinstance(e, ast.Subscript):
+            e = e.value
+        elif isinstance(e, ast.BinOp):
+            e = e.left
+        elif isinstance(e, ast.UnaryOp):
+            e = e.operand
+        elif isinstance(e, ast.BoolOp):
+            e = e.values[0]
+        elif isinstance(e, ast.Compare):
+            e = e.left
+        elif isinstance(e, ast.IfExp):
+            e = e.test
+        elif isinstance(e, (ast.Tuple, ast.List)) and e.elts:
+            e = e.elts[0]
+        elif isinstance(e, (ast.GeneratorExp, ast.ListComp, ast.SetComp)):
+            e = e.generators[0].iter
+        else:
+            return None
+
+
+def _first_evaluated_arg(e, name):
+    """True if the single use of ``name`` inside ``e`` is evaluated before anything that could have an effect"""
+    if isinstance(e, ast.Name):
+        return e.id == name
+    if isinstance(e, ast.Call) and isinstance(e.func, ast.Name) and e.args and not any(isinstance(a, ast.Starred) for a in e.args):
+        # builtin-style call f(<first arg>, ...): the callee name is looked up, then the first argument is evaluated
+        return e.func.id != name and _first_evaluated_arg(e.args[0], name)
+    if isinstance(e, ast.Call) and isinstance(e.func, ast.Attribute) and isinstance(e.func.value, ast.Name) and e.func.value.id != name \
+            and e.args and not any(isinstance(a, ast.Starred) for a in e.args) and e.func.value.id in ("chain", "itertools"):
+        return _first_evaluated_arg(e.args[0], name)
+    if isinstance(e, ast.UnaryOp):
+        return _first_evaluated_arg(e.operand, name)
+    if isinstance(e, (ast.GeneratorExp, ast.ListComp, ast.SetComp)):
+        return _first_evaluated_arg(e.generators[0].iter, name)
+    if isinstance(e, ast.Attribute):
+        return _first_evaluated_arg(e.value, name)
+    if isinstance(e, ast.Subscript):
+        return _first_evaluated_arg(e.value, name)
+    if isinstance(e, ast.BinOp):
+        return _first_evaluated_arg(e.left, name)
+    if isinstance(e, ast.Compare):
+        return _first_evaluated_arg(e.left, name)
+    if isinstance(e, ast.BoolOp):
+        return _first_evaluated_arg(e.values[0], name)
+    if isinstance(e, ast.IfExp):
+        return _first_evaluated_arg(e.test, name)
+    if isinstance(e, (ast.Tuple, ast.List)) and e.elts:
+        return _first_evaluated_arg(e.elts[0], name)
+    return False
+
+
+def inline_adjacent_temporaries(fn):
+    """`t = E` immediately followed by the statement that holds the only use of `t`, where that use is the first thing the
+    statement evaluates: substitute E for t (a named intermediate result; evaluation order is unchanged)"""
+    scope = _Scope(fn)
+    loads = {}
+    for n in _walk_scope(fn.body):
+        if isinstance(n, ast.Name) and isinstance(n.ctx, ast.Load):
+            loads[n.id] = loads.get(n.id, 0) + 1
+    n_done = 0
+
+    def header_expr(st):
+        if isinstance(st, (ast.Return, ast.Expr)) and st.value is not None:
+            return st.value
+        if isinstance(st, ast.Assign):
+            return st.value
+        if isinstance(st, (ast.If, ast.While)):
+            return st.test
+        if isinstance(st, ast.For):
+            return st.iter
+        if isinstance(st, ast.Raise) and st.exc is not None:
+            return st.exc
+        return None
+
+    def rec(stmts):
+        nonlocal n_done
+        for st in stmts:
+            for field, blk in list(_blocks(st)):
+                rec(blk)
+        i = 0
+        while i + 1 < len(stmts):
+            a, b = stmts[i], stmts[i + 1]
+            if isinstance(a, ast.Assign) and len(a.targets) == 1 and isinstance(a.targets[0], ast.Name):
+                name = a.targets[0].id
+                if len(scope.plain.get(name, ())) == 1 and scope.only_plain(name) and loads.get(name, 0) == 1 \
+                        and isinstance(a.value, (ast.Call, ast.GeneratorExp, ast.ListComp)) \
+                        and not _contains(a, (ast.Yield, ast.YieldFrom, ast.Await)):
+                    hx = header_expr(b)
+                    if hx is not None and _first_evaluated_arg(hx, name) \
+                            and sum(1 for x in ast.walk(hx) if isinstance(x, ast.Name) and x.id == name) == 1:
+                        class R(ast.NodeTransformer):
+                            def visit_Name(self, node):
+                                if node.id == name and isinstance(node.ctx, ast.Load):
+                                    return ast.copy_location(a.value, node)
+                                return node
+                        for fld in ("value", "test", "iter", "exc"):
+                            if getattr(b, fld, None) is hx:
+                                setattr(b, fld, R().visit(hx))
+                        del stmts[i]
+                        n_done += 1
+                        i = max(i - 1, 0)
+                        continue
+            i += 1
+    rec(fn.body)
+    if n_done:
+        ast.fix_missing_locations(fn)
+    return n_done
+
+
 # ---------------------------------------------------------------------------
 def normalize_module(tree, property_names=None):
     """in place; -> dict of counters (generator helpers are inlined program-wide before this); property_names: attribute
     names that are properties of the package (None: attribute reads are never moved)"""
     stats = {}
+    k = desugar_attrgetter(tree)
+    if k:
+        stats["attrgetter"] = k
     k = desugar_getattr_default(tree)
     if k:
         stats["getattr_default"] = k
@@ -1377,6 +1650,21 @@ def normalize_module(tree, property_names=None):
     if k:
         stats["dispatch_tables"] = k
     for fn in [x for x in ast.walk(tree) if isinstance(x, ast.FunctionDef)]:
+        k = desugar_yield_from_genexp(fn)
+        if k:
+            stats["yield_from_genexp"] = stats.get("yield_from_genexp", 0) + k
+        k = drop_pass_branch(fn)
+        if k:
+            stats["pass_branches"] = stats.get("pass_branches", 0) + k
+        k = desugar_next_iter(fn)
+        if k:
+            stats["next_iter"] = stats.get("next_iter", 0) + k
+        k = inline_adjacent_temporaries(fn)
+        if k:
+            stats["adjacent_temporaries"] = stats.get("adjacent_temporaries", 0) + k
+        k = desugar_chain_from_iterable(fn)
+        if k:
+            stats["chain_from_iterable"] = stats.get("chain_from_iterable", 0) + k
         k = for_over_genexp(fn)
         if k:
             stats["for_over_genexp"] = stats.get("for_over_genexp", 0) + k
